@@ -1,5 +1,5 @@
 SPECIFICATION Spec
-CONSTANTS EmitOn = FALSE
+CONSTANTS EmitOn = TRUE
           Thorough = FALSE
           NPerm = 6
           NCombo = 3
